@@ -689,9 +689,10 @@ func (c *c11Recover) Evals() int   { return len(c.Limits) }
 // on, block its callers for ever, or close as if nothing had happened
 
 type c11BgFlush struct {
-	NPuts  int    `json:"nputs"`
-	ValLen int    `json:"val_len"`
-	File   string `json:"file"` // which file of the table cannot be written
+	NPuts   int    `json:"nputs"`
+	ValLen  int    `json:"val_len"`
+	File    string `json:"file"`               // which file of the table cannot be written
+	AtClose bool   `json:"at_close,omitempty"` // the memstore limit is never reached: the failing flush is the one Close hands over
 	// observations
 	Outcome string `json:"outcome"` // stopped | hung | closed-silently | closed-with-error | flush did not fail
 	Out     string `json:"out,omitempty"`
@@ -699,10 +700,11 @@ type c11BgFlush struct {
 }
 
 type bgFlushArgs struct {
-	Dir    string `json:"dir"`
-	NPuts  int    `json:"nputs"`
-	ValLen int    `json:"val_len"`
-	File   string `json:"file"`
+	Dir     string `json:"dir"`
+	NPuts   int    `json:"nputs"`
+	ValLen  int    `json:"val_len"`
+	File    string `json:"file"`
+	AtClose bool   `json:"at_close,omitempty"`
 }
 
 func bgFlushChild(args []string) int {
@@ -711,7 +713,11 @@ func bgFlushChild(args []string) int {
 	_ = fs.Parse(args)
 	var a bgFlushArgs
 	childArgs(*in, &a)
-	db, err := simpledb.NewSimpleDB(a.Dir, simpledb.MemstoreSizeBytes(uint64(4*a.ValLen)), simpledb.DisableCompactions(), simpledb.WriteBufferSizeBytes(4096), simpledb.ReadBufferSizeBytes(4096))
+	limit := uint64(4 * a.ValLen)
+	if a.AtClose {
+		limit = 1 << 30
+	}
+	db, err := simpledb.NewSimpleDB(a.Dir, simpledb.MemstoreSizeBytes(limit), simpledb.DisableCompactions(), simpledb.WriteBufferSizeBytes(4096), simpledb.ReadBufferSizeBytes(4096))
 	if err == nil {
 		err = db.Open()
 	}
@@ -758,7 +764,7 @@ func (c *c11BgFlush) Exec() {
 	dir := filepath.Join(base, "db")
 	must(os.MkdirAll(dir, 0755))
 	self, _ := os.Executable()
-	a, _ := json.Marshal(bgFlushArgs{Dir: dir, NPuts: c.NPuts, ValLen: c.ValLen, File: c.File})
+	a, _ := json.Marshal(bgFlushArgs{Dir: dir, NPuts: c.NPuts, ValLen: c.ValLen, File: c.File, AtClose: c.AtClose})
 	out, err := exec.Command(self, "c11bgflush", "--args", string(a)).CombinedOutput()
 	c.Out = string(out)
 	if len(c.Out) > 600 {
@@ -774,8 +780,24 @@ func (c *c11BgFlush) Exec() {
 	case err != nil:
 		c.Outcome = "stopped"
 	case bytes.Contains(out, []byte("CLOSED <nil>")):
+		// every Put and Close reported success: the table must be there, complete
 		c.Outcome = "closed-silently"
-		if !bytes.Contains(out, []byte("error while")) {
+		silent := false
+		tabs, _ := filepath.Glob(filepath.Join(dir, "sstable_*"))
+		for _, td := range tabs {
+			// a planted directory that a flush has written into (some other table file is there) while the planted file
+			// still points to /dev/full: that flush cannot have succeeded
+			used := false
+			for _, f := range []string{"index.rio", "data.rio", "meta.pb.bin", "bloom.bf.gz"} {
+				if st, err := os.Lstat(filepath.Join(td, f)); f != c.File && err == nil && st.Mode().IsRegular() {
+					used = true
+				}
+			}
+			if st, err := os.Lstat(filepath.Join(td, c.File)); used && err == nil && st.Mode()&os.ModeSymlink != 0 {
+				silent = true
+			}
+		}
+		if !silent {
 			c.Outcome = "flush did not fail"
 		}
 	case bytes.Contains(out, []byte("CLOSED")):
@@ -815,9 +837,11 @@ type c11Damaged struct {
 	// the index file of the victim, which holds hundreds of records
 	IdxHole bool `json:"idx_hole,omitempty"`
 	// observations
-	CycleErr string `json:"cycle_err,omitempty"`
-	Wrong    string `json:"wrong,omitempty"` // after a cycle that reported success: a key that reads differently than it was written
-	Fatal    string `json:"fatal,omitempty"`
+	CycleErr string   `json:"cycle_err,omitempty"`
+	Selected []string `json:"selected,omitempty"`
+	Records  []uint64 `json:"records,omitempty"` // record counts of the live tables after the cycle
+	Wrong    string   `json:"wrong,omitempty"`   // after a cycle that reported success: a key that reads differently than it was written
+	Fatal    string   `json:"fatal,omitempty"`
 }
 
 func (c *c11Damaged) Exec() {
@@ -850,11 +874,18 @@ func (c *c11Damaged) Exec() {
 		st := dbStep{Op: "rotate"}
 		r.step(&st)
 	}
+	// one more generation, so that the memstore pair no longer holds the content of any of the tables above (the store
+	// flushed last stays readable in memory until the next rotation)
+	must(r.db.Put("zz-last", "x"))
+	ref["zz-last"] = "x"
+	last := dbStep{Op: "rotate"}
+	r.step(&last)
 	tabs := r.db.VerifTables()
-	if len(tabs) != c.NTables {
+	if len(tabs) != c.NTables+1 {
 		c.Fatal = "setup: unexpected number of tables"
 		return
 	}
+	tabs = tabs[:c.NTables]
 	p := filepath.Join(tabs[c.Victim%len(tabs)].Path, sstables.DataFileName)
 	if c.IdxHole {
 		p = filepath.Join(tabs[c.Victim%len(tabs)].Path, sstables.IndexFileName)
@@ -884,7 +915,10 @@ func (c *c11Damaged) Exec() {
 	must(os.WriteFile(p, data, 0644))
 	st := dbStep{Op: "compact"}
 	r.step(&st)
-	c.CycleErr = st.Err
+	c.CycleErr, c.Selected, c.Records = st.Err, st.Selected, nil
+	for _, t := range st.Tables {
+		c.Records = append(c.Records, t.Num)
+	}
 	if st.Err != "" {
 		return
 	}
